@@ -392,7 +392,9 @@ pub proof fn lemma_upto_next(sols: Seq<Solution>, i: int)
                 (forall|a: u16| (a as int) < predicate.nodes@.len() ==> #[trigger] crate::emitted(levels@, a))
                 && crate::placed_once(levels@)
                 && crate::parents_first(%(S)s, levels@)
-                && (forall|i: int, j: int| 0 <= i < levels@.len() && 0 <= j < levels@[i]@.len() ==> (#[trigger] levels@[i]@[j] as int) < predicate.nodes@.len()))''' % {'S': _S3},
+                && (forall|i: int, j: int| 0 <= i < levels@.len() && 0 <= j < levels@[i]@.len() ==> (#[trigger] levels@[i]@[j] as int) < predicate.nodes@.len())),
+            // an error is returned only for a cyclic graph: an acyclic one is always sorted
+            crate::acyclic(%(S)s) <==> r is Ok''' % {'S': _S3},
           head_ghost='let ghost n = predicate.nodes@.len() as int;',
           hints=[('let mut out = Vec::new();', 'before', '''assert(predicate.starts().len() == predicate.nodes@.len());
                     assert forall|b: u16| #[trigger] in_degrees@.contains_key(b) implies in_degrees@[b] as int == crate::indeg(%(S)s, in_degrees@.dom(), b, n) by {
@@ -401,7 +403,39 @@ pub proof fn lemma_upto_next(sols: Seq<Solution>, i: int)
                         assert forall|x: u16| (x as int) < n implies in_degrees@.dom().contains(x) by { assert(in_degrees@.contains_key(x)); }
                         crate::lemma_plist_len(%(S)s, in_degrees@.dom(), b, n, 0); }''' % {'S': _S3}),
                  ('Ok(out)', 'before', '''assert forall|a: u16| (a as int) < n implies #[trigger] crate::emitted(out@, a) by { assert(!in_degrees@.contains_key(a)); }
-                    assert forall|i: int, j: int| 0 <= i < out@.len() && 0 <= j < out@[i]@.len() implies (#[trigger] out@[i]@[j] as int) < n by { assert(crate::level_of(out@, out@[i]@[j], i)); }'''),
+                    // the level index is a ranking: the graph is acyclic
+                    let outv = out@;
+                    let rank = |a: u16| choose|i: int| crate::level_of(outv, a, i);
+                    assert(crate::ranked(%(S)s, rank)) by {
+                        assert forall|a: u16, b: u16| #[trigger] crate::child_of(%(S)s, a, b) implies rank(a) < rank(b) by {
+                            crate::lemma_child_edge_count(%(S)s, a, b);
+                            assert(crate::node_ok(%(S)s, a as int));
+                            let es = crate::node_edges_spec(%(S)s, a as int)->Some_0;
+                            let k = choose|k: int| 0 <= k < es.len() && es[k] == b;
+                            assert((es[k] as int) < n);
+                            assert(crate::emitted(outv, b));
+                            let ib = rank(b); assert(crate::level_of(outv, b, ib));
+                            let ia2 = choose|i2: int| i2 < ib && #[trigger] crate::level_of(outv, a, i2);
+                            let ia = rank(a); assert(crate::level_of(outv, a, ia));
+                            let j1 = choose|j: int| 0 <= j < outv[ia]@.len() && outv[ia]@[j] == a;
+                            let j2 = choose|j: int| 0 <= j < outv[ia2]@.len() && outv[ia2]@[j] == a;
+                            assert(outv[ia]@[j1] == outv[ia2]@[j2]);
+                            assert(ia == ia2); } }
+                    assert(crate::acyclic(%(S)s));
+                    assert forall|i: int, j: int| 0 <= i < out@.len() && 0 <= j < out@[i]@.len() implies (#[trigger] out@[i]@[j] as int) < n by { assert(crate::level_of(out@, out@[i]@[j], i)); }''' % {'S': _S3}),
+                 ('return Err(PredicateError::InvalidNodeEdges(0));', 'before', '''// no ready node although nodes are waiting: the graph cannot be ranked, i.e. it has a cycle
+                    if crate::acyclic(%(S)s) {
+                        let rank = choose|rank: spec_fn(u16) -> int| crate::ranked(%(S)s, rank);
+                        let d = in_degrees@.dom();
+                        assert(d.finite() && d.len() > 0);
+                        let m = crate::lemma_min_rank(d, rank, n);
+                        assert forall|a: u16| d.contains(a) && (a as int) < n implies crate::edge_count(%(S)s, a as int, m) == 0 by {
+                            if crate::edge_count(%(S)s, a as int, m) != 0 { crate::lemma_edge_count_child(%(S)s, a, m); assert(rank(a) < rank(m)); } }
+                        crate::lemma_indeg_zero_if_no_edge(%(S)s, d, m, n);
+                        assert(in_degrees@.contains_key(m) && in_degrees@[m] == 0);
+                        assert(current_level@.contains(m));
+                        assert(false);
+                    }''' % {'S': _S3}),
                  ('out.push(current_level.clone());', 'before', 'let ghost out0 = out@; let ghost d0 = in_degrees@.dom(); let ghost cl = current_level@; let ghost lv = out@.len() as int;', 'ghost'),
                  ('out.push(current_level.clone());', 'after', '''assert(out@ =~= out0.push(out@[lv])); assert(out@[lv]@ == cl);
                     // the nodes of the new level have no parent among the waiting nodes: all their parents are placed earlier
